@@ -241,6 +241,13 @@ func r4Conf(m map[string]string, conf string, x *engineX) string {
 		}
 		conf = r4OnceRe.ReplaceAllString(conf, fmt.Sprintf("rps: [{type: const, ops: %d, duration: %dms}]", atoi(f[0], 1), atoi(f[1], 1000)))
 	}
+	if s := m["schedx"]; s != "" {
+		if !r4OnceRe.MatchString(conf) || x.phout != "" {
+			panic("r4Conf: bad schedx " + s)
+		}
+		conf = r4OnceRe.ReplaceAllString(conf, r6Rps(s))
+		x.ts = &r6Rec{}
+	}
 	if m["disc"] == "1" {
 		conf = strings.TrimRight(conf, "\n") + "\n    discard_overflow: true\n"
 	}
